@@ -28,7 +28,7 @@ EXPLANATION = (
     'uses the same width/fill/unpack; R5 get_link_driver returns the first instance whose connect returns, continues only on '
     'WrongUriType, returns None after the loop; open_link turns None and any exception into connection_failed.')
 ASSUMPTIONS = ['urlparse/parse_qs/binascii.unhexlify behave as documented', 'optional drivers are only those init_drivers() can append']
-FLOORS = {'R1': 8, 'R2': 13, 'R3': 1, 'R4': 9, 'R5': 6}
+FLOORS = {'R1': 9, 'R2': 14, 'R3': 1, 'R4': 9, 'R5': 6}
 
 RATES = {'250K': 'DR_250KPS', '1M': 'DR_1MPS', '2M': 'DR_2MPS'}
 
@@ -125,6 +125,24 @@ def check(ctx):
         if want and ok:
             ctx.inst('R1', con, 'scheme', sorted(schemes) == [want], '%s claims %s, expected %s://' % (cname, sorted(schemes), want))
     flat = [s for v in claims.values() for s in v]
+    idr = m.func(CR, 'init_drivers')
+    gi = cfg_of(idr)
+    reg = {}
+    for n, c in gi.find(lambda q: isinstance(q, ast.Call) and isinstance(q.func, ast.Attribute) and q.func.attr in ('append', 'extend') and norm(q.func.value) == 'CLASSES'):
+        for nm in [x.id for x in ast.walk(c) if isinstance(x, ast.Name) and x.id.endswith('Driver')]:
+            reg[nm] = sorted(gi.fact_keys_at(n))
+    want_guards = {'SerialDriver': [fact_key('enable_serial_driver', True)], 'UdpDriver': [], 'PrrtDriver': [], 'TcpDriver': []}
+    ctx.inst('R1', idr, 'optional-drivers-follow-their-flag', all(reg.get(k) == v for k, v in want_guards.items()),
+             'every call registers the serial driver iff it was asked for and the udp/prrt/tcp drivers always (no other condition, e.g. "already initialised", may suppress '
+             'a scheme): guards %s' % {k: reg.get(k) for k in want_guards})
+    gsr = m.func('cflib/drivers/crazyradio.py', 'get_serials')
+    rets_ = [r_.value for r_ in walk_own(gsr.node) if isinstance(r_, ast.Return)]
+    okg = len(rets_) == 1 and norm(rets_[0]).replace(' ', '') in (
+        'tuple(map(lambdad:d.serial_number,_find_devices()))', 'tuple(d.serial_number for d in _find_devices())'.replace(' ', ''),
+        'tuple([d.serial_number for d in _find_devices()])'.replace(' ', ''))
+    ctx.inst('R2', gsr, 'serial-index=device-index', okg,
+             'get_serials() lists the serial of EVERY enumerated dongle in enumeration order: parse_uri turns a serial into its index in this list and Crazyradio(devid) '
+             'indexes the unfiltered device list; returns %s' % [norm(r_) for r_ in rets_])
     ctx.inst('R1', (CR, 'init_drivers'), 'schemes-pairwise-distinct', len(flat) == len(set(flat)), 'claimed schemes: %s' % claims)
 
     # ---- R2 / R3: parse_uri ---------------------------------------------------------------
